@@ -4,29 +4,38 @@ Usage: tools/run_seeded.py [id ...]   — writes seeded/RESULTS.json and prints 
 import os, sys, json, subprocess, glob
 V = os.path.dirname(os.path.dirname(os.path.abspath(__file__)))
 def sh(cmd, **kw): return subprocess.run(cmd, shell=True, stdout=subprocess.PIPE, stderr=subprocess.STDOUT, text=True, **kw)
+SCRATCH = None
+if "--scratch" in sys.argv:
+    sys.argv.remove("--scratch"); SCRATCH = "/var/tmp/aiocoap-seedrun-%d" % os.getpid()
 ids = sys.argv[1:] or sorted(os.path.basename(os.path.dirname(p)) for p in glob.glob(os.path.join(V, "seeded", "*", "patch.diff")))
 assert sh("git -C /repo status --porcelain --untracked-files=no").stdout.strip() == "", "/repo has local modifications"
+import shutil
 res_path = os.path.join(V, "seeded", "RESULTS.json")
 results = json.load(open(res_path)) if os.path.exists(res_path) else {}
 for sid in ids:
     d = os.path.join(V, "seeded", sid); meta = json.load(open(os.path.join(d, "meta.json")))
     props = meta.get("checks") or [meta["property"]]
-    r = sh("git -C /repo apply --check %s/patch.diff && git -C /repo apply %s/patch.diff" % (d, d))
+    if SCRATCH:
+        shutil.rmtree(SCRATCH, ignore_errors=True); sh("mkdir -p %s && rsync -a --exclude .git --exclude __pycache__ /repo/ %s/" % (SCRATCH, SCRATCH))
+        r = sh("cd %s && patch -p1 -s < %s/patch.diff" % (SCRATCH, d))
+    else:
+        r = sh("git -C /repo apply --check %s/patch.diff && git -C /repo apply %s/patch.diff" % (d, d))
     if r.returncode != 0:
         results[sid] = {"error": "patch does not apply: " + r.stdout[-300:]}; print(sid, "PATCH DOES NOT APPLY"); continue
     try:
         out = {}
         for pid in props:
-            c = sh("./check %s quick" % pid, cwd=V, timeout=1800)
+            c = sh(("AIOCOAP_REPO=%s " % SCRATCH if SCRATCH else "") + "./check %s quick" % pid, cwd=V, timeout=3600)
             viol = [l for l in c.stdout.splitlines() if l.startswith("VIOLATION")]
             out[pid] = {"exit": c.returncode, "violation_lines": viol[:3], "tail": c.stdout.strip().splitlines()[-1:] }
         results[sid] = {"property": meta["property"], "checks": out,
                         "caught": any(v["exit"] == 1 and v["violation_lines"] for v in out.values()),
                         "with_failing_input": any(v["violation_lines"] and not v["violation_lines"][0].endswith("no-failing-input-found") for v in out.values())}
     finally:
-        sh("git -C /repo checkout -- .")
+        if SCRATCH: shutil.rmtree(SCRATCH, ignore_errors=True)
+        else: sh("git -C /repo checkout -- .")
     print(sid, "caught" if results[sid].get("caught") else "MISSED", "(failing input)" if results[sid].get("with_failing_input") else "", flush=True)
     json.dump(results, open(res_path, "w"), indent=1)
 # restore Gen files / build state for the unchanged tree
 for pid in sorted({p for s in ids for p in (json.load(open(os.path.join(V, "seeded", s, "meta.json"))).get("checks") or [json.load(open(os.path.join(V, "seeded", s, "meta.json")))["property"]])}):
-    sh("./check %s quick" % pid, cwd=V, timeout=1800)
+    sh("./check %s quick" % pid, cwd=V, timeout=3600)
